@@ -493,9 +493,12 @@ func checkC15(c *Ctx) {
 			continue
 		}
 		// the key generation may sit in a helper of the package that Obfuscate calls (both tag obfuscators share it)
+		var viaHelper ssa.Instruction
+		top := f
 		if typ != "XORObfuscator" && len(callsIn(f, shortIs("ScalarBaseMult"))) == 0 {
 			if l, ok := findOneDeep(f, shortIs("ScalarBaseMult")); ok {
 				f = l.in
+				viaHelper = l.site()
 			}
 		}
 		reads := callsIn(f, nameIs("crypto/rand.Read"))
@@ -576,6 +579,26 @@ func checkC15(c *Ctx) {
 				"a successful return is reachable after ScalarBaseMult reported that the key has no Elligator representative: the tag is sent with a stale or zero representative, which the station cannot map back to the client's key - the encoding is not invertible", r.blockPath(f, w)...)
 		} else {
 			r.OK("C15.3", typ+".Obfuscate: the key search ends only with a key that has a representative", sbm.Pos(), "no successful return reachable from ScalarBaseMult == false without another attempt")
+		}
+		// ... and every encoding has a key of its own: no successful return of the key generation (or of Obfuscate around
+		// it) is reachable without a ScalarBaseMult made in this call (a remembered key makes two encodings linkable)
+		reused, w2 := reach(f, nil, isOKReturn, isInstr(sbm), nil)
+		if !reused && viaHelper != nil {
+			isOKTop := func(in ssa.Instruction) bool {
+				ret, ok := in.(*ssa.Return)
+				if !ok || len(ret.Results) == 0 || ret.Block().Comment == "recover" {
+					return false
+				}
+				cst, isC := returnedValue(ret, len(ret.Results)-1, nil).(*ssa.Const)
+				return isC && cst.Value == nil
+			}
+			reused, w2 = reach(top, nil, isOKTop, isInstr(viaHelper), nil)
+		}
+		if reused {
+			r.Bad("C15.3", typ+".Obfuscate: every encoding generates its own ephemeral key", sbm.Pos(), fnName(f),
+				"a successful return is reachable without a key generation in this call (a cached / remembered ephemeral key): two encodings of a tag share their first 32 bytes and are linkable - not a fresh encoding every time", r.blockPath(f, w2)...)
+		} else {
+			r.OK("C15.3", typ+".Obfuscate: every encoding generates its own ephemeral key", sbm.Pos(), "no successful return reachable without ScalarBaseMult in this call")
 		}
 		r.Check(!stale1 && !stale2, "C15.3", typ+".Obfuscate: ephemeral private key filled from crypto/rand before every ScalarBaseMult", sbm.Pos(), fnName(f), "must-pass rand.Read(clientPrivate[:])",
 			"a path reaches the key derivation without refilling the ephemeral private key from crypto/rand: a fixed or reused ephemeral key makes every tag for a station identical/linkable")
